@@ -388,6 +388,7 @@ def run(tier):
     for sh in common.pmap_shards(_worker, items, order_seed=rep.seed):
         rep.merge(sh)
     shared_options_driver(rep)
+    router_options_driver(rep, tier)
     rep.counters["distinct_nontrivial"] = rep.counters.get("states", 0)
     rep.assumptions = ["reference AVM interpreter"]
     if not rep.counters.get("stack_pairs"):
@@ -395,11 +396,58 @@ def run(tier):
     return rep.finish()
 
 
+def router_options_driver(rep, tier):
+    """Router-built programs (the argument-decoding glue differs between the calling conventions): the method
+    signatures of C09 that mix transaction, reference and 13-17 plain parameters, compiled at versions 8 and 10
+    under every frame_pointers / scratch_slots setting and called with the same ARC-4 group - one outcome."""
+    import pyteal as pt
+    from . import c09
+    cases = [c for c in c09.cases(tier) if len(c["params"]) >= 13 or any(c09.is_txn(k) for k in c["params"])]
+    cases = cases if tier == "thorough" else cases[::3]
+    rep.bounds["router_option_cases"] = len(cases)
+    settings = [dict(frame_pointers=fp, scratch_slots=ss) for fp in (False, True) for ss in (False, True)]
+    for case in cases:
+        params, ret = case["params"], case.get("ret")
+        sig = c09.method_sig("meth", params, ret)
+        try:
+            group, gi, _expect = c09.build_group(sig, params, 0)
+        except Exception:
+            continue
+        for ver in (8, 10):
+            outs = []
+            for kw in settings:
+                try:
+                    router = pt.Router("r", pt.BareCallActions(no_op=pt.OnCompleteAction.create_only(pt.Approve())),
+                                       clear_state=pt.Approve())
+                    router.add_method_handler(c09.build_method("meth", params, ret))
+                    approval, _clear, _c = router.compile_program(version=ver, optimize=pt.OptimizeOptions(**kw))
+                except drive.PT_ERRORS as e:
+                    outs.append(("PTERR", type(e).__name__))
+                    continue
+                res = interp.run(asm.assemble(approval), interp.Ctx(mode="A", group=group, group_index=gi), fuel=100000)
+                outs.append((res.verdict, tuple(res.logs) if res.verdict == "APPROVE" else None))
+                rep.add("traces_validated")
+            if len(set(outs)) > 1:
+                k = [i for i, o in enumerate(outs) if o != outs[0]][0]
+                rep.violations.append({
+                    "driver": "router-options", "size": len(params),
+                    "title": "router method %s (v%d): %r gives %s, %r gives %s" % (
+                        sig[:80], ver, settings[0], str(outs[0])[:80], settings[k], str(outs[k])[:80]),
+                    "case": case, "version": ver, "features": {"kind": "router-options"}})
+
+
 def replay_shared(case, mode="text", pid=PID):
     return replay(dict(case, driver="shared-options"), mode, pid)
 
 
 def replay(case, mode="text", pid=PID):
+    if case.get("driver") == "router-options":
+        rep = common.Report(pid, "thorough")
+        router_options_driver(rep, "thorough")
+        hits = [v for v in rep.violations if v["case"] == case["case"] and v["version"] == case["version"]]
+        for v in hits:
+            print("still violates:", v["title"])
+        return bool(hits)
     if case.get("driver") == "shared-options":
         rep = common.Report(pid, "quick")
         shared_options_driver(rep, mode)
